@@ -285,6 +285,10 @@ fn candidate_none(m: &RegexMatcher, hay: &[u8]) -> bool {
 
 pub fn check(case: &Case) -> Verdict {
     let pat = &case.pat;
+    if std::env::var_os("VERIF_TRACE_CASES").is_some() {
+        let rss = std::fs::read_to_string("/proc/self/status").ok().and_then(|s| s.lines().find(|l| l.starts_with("VmRSS:")).map(|l| l.to_string())).unwrap_or_default();
+        eprintln!("C11 case: {:?} term={:?} word={} whole={} {}", pat.patterns, pat.term, pat.word, pat.whole_line, rss);
+    }
     let m = match pat.build() {
         Ok(m) => m,
         Err(e) => {
@@ -507,7 +511,7 @@ const UNARY: &[&str] = &["*", "+", "?", "{2}"];
 /// Second grammar, aimed at the inner-literal extractor: few leaves, more
 /// depth (literal runs around classes and repetitions).
 const LIT_LEAVES: &[&str] = &["a", "b", "[a-z]", "[ab]"];
-const LIT_UNARY: &[&str] = &["+", "*", "?", "{1,2}"];
+const LIT_UNARY: &[&str] = &["+", "*", "?", "{1,2}", "{11}"];
 
 /// All patterns with exactly `n` nodes (rendered), memoized by the caller.
 fn patterns_of_size(n: usize, memo: &mut Vec<Vec<String>>) {
@@ -524,6 +528,11 @@ fn patterns_of_size_over(n: usize, memo: &mut Vec<Vec<String>>, leaves: &[&str],
         } else if k >= 2 {
             for p in &memo[k - 1] {
                 for u in unary {
+                    // large counts only directly around a leaf: nested they
+                    // multiply (11^depth) and compiled sizes explode
+                    if u.starts_with("{1") && u.len() >= 4 && !u.contains(',') && k - 1 != 1 {
+                        continue;
+                    }
                     // a repetition of a repetition or of an assertion is legal regex syntax; keep it
                     out.push(format!("(?:{p}){u}"));
                 }
@@ -633,6 +642,9 @@ pub fn run(pc: &PropCtx) {
     pc.run_enum("repo_corpus", cases, check);
     let n = pc.tier.pick(6_000, 150_000);
     pc.run_tape("random_patterns", n, (128, 1200), gen_case, check);
+    if pc.tier == crate::runner::Tier::Thorough {
+        pc.run_fuzz("C11:random_patterns", 150_000, 5000, &|v| replay(pc, "random_patterns", v).unwrap_or(Verdict::Reject("unreadable")));
+    }
     pc.require_class("random_patterns:fast_line_regex_present", n as u64 / 40);
     pc.require_class("enumerated_grammar:dfa_built", pats.len() as u64);
 }
